@@ -11,16 +11,26 @@ use trustfall_core::interpreter::{
 };
 use trustfall_core::ir::{EdgeParameters, FieldValue};
 
-use crate::adapter::V;
 use crate::val::Val;
 
 pub trait VKey {
     fn vkey(&self) -> u64;
 }
 
-impl VKey for V {
+/// names of the introspection schema's vertex kinds (their index is kept in the low bits of the key)
+pub const META_TYPES: [&str; 5] = ["VertexType", "Property", "Edge", "EdgeParameter", "Schema"];
+
+/// Vertex keys are derived from `Debug` (vertex types of foreign adapters are not nameable here):
+/// the harness's own `V(n)` maps to `n`; anything else to a hash with the variant index of the
+/// introspection adapter's vertex in the low three bits.
+impl<T: std::fmt::Debug> VKey for T {
     fn vkey(&self) -> u64 {
-        self.0 as u64
+        let d = format!("{self:?}");
+        if let Some(n) = d.strip_prefix("V(").and_then(|x| x.strip_suffix(')')).and_then(|x| x.parse::<u64>().ok()) {
+            return n;
+        }
+        let idx = META_TYPES.iter().position(|t| d == *t || d.starts_with(&format!("{t}("))).unwrap_or(7) as u64;
+        (crate::rng::fnv(&d) << 3) | idx
     }
 }
 
